@@ -116,6 +116,13 @@ func atpcBuildDriver(clientSrc string) (*atpcBuild, error) {
 		filepath.Join(repo, "atp", "client.go"):   filepath.Join(dir, "client.go"),
 		filepath.Join(repo, "atp", "zz_verif.go"): filepath.Join(dir, "zz_verif.go"),
 	}}
+	// experiments: further files of the repository replaced for the build of the session driver,
+	// VERIF_REPO_OVERLAY="schema/object.go=/tmp/x/object.go,..."
+	for _, kv := range strings.Split(os.Getenv("VERIF_REPO_OVERLAY"), ",") {
+		if i := strings.IndexByte(kv, '='); i > 0 {
+			ov["Replace"][filepath.Join(repo, kv[:i])] = kv[i+1:]
+		}
+	}
 	ob, _ := json.Marshal(ov)
 	must(os.WriteFile(filepath.Join(dir, "overlay.json"), ob, 0o644))
 	if err != nil {
@@ -460,7 +467,7 @@ func atpcMain(a Args) {
 	// Jobs that take seconds by design (Close's own 5 s timeout, silent peers) are spread over the
 	// list: a worker process runs its batch sequentially.
 	{
-		slowClass := map[string]bool{"c08-sigslow": true, "c08-wfail": true, "c06-witness": true}
+		slowClass := map[string]bool{"c08-sigslow": true, "c08-wfail": true, "c06-witness": true, "c08-twosessions": true}
 		var fast, slow []atpcs.Job
 		for _, j := range jobs {
 			if slowClass[class[j.ID]] {
@@ -590,6 +597,9 @@ func atpcDescribe(b *atpcBuild, j atpcs.Job) string {
 	}
 	if j.WriteFailAfter >= 0 {
 		fmt.Fprintf(&sb, " writes fail after %d", j.WriteFailAfter)
+	}
+	if j.PreHello != "" {
+		fmt.Fprintf(&sb, " after-another-client-rejected-hello=%s", j.PreHello)
 	}
 	if j.Session.Marker != "" {
 		fmt.Fprintf(&sb, " marker=%s", j.Session.Marker)
